@@ -657,7 +657,13 @@ class Lexer:
                     msg = str(e).split(":")[-1].strip()
                     raise TemplateSyntaxError(msg, lineno, name, filename) from e
             elif token == TOKEN_INTEGER:
-                value = int(value_str.replace("_", ""), 0)
+                try:
+                    value = int(value_str.replace("_", ""), 0)
+                except ValueError as e:
+                    # e.g. more digits than the interpreter converts
+                    raise TemplateSyntaxError(
+                        f"invalid integer literal: {e}", lineno, name, filename
+                    ) from e
             elif token == TOKEN_FLOAT:
                 # remove all "_" first to support more Python versions
                 value = literal_eval(value_str.replace("_", ""))
